@@ -22,7 +22,7 @@ from typing_extensions import NotRequired, TypedDict
 
 __all__ = [
     "TDk",
-    "Rev", "Fwd", "IntKeyed", "LS", "KT", "VT", "FSub", "ISub",
+    "Rev", "Fwd", "IntKeyed", "LS", "KT", "VT", "FSub", "ISub", "Pops", "T_co",
     "kwmap_int", "kwmap_str", "seq_int", "seq_str",
     "A", "B", "C", "D", "G", "E", "IE", "N", "TD", "TDp", "TDn", "HasX", "SupportsClose",
     "Suppress", "NoSuppress", "cond", "call", "use", "ident", "first", "pair", "apply_fn",
@@ -303,6 +303,15 @@ class IntKeyed(Dict[int, VT]):
 class LS(List[T]):
     def __repr__(self):
         return f"LS({list.__repr__(self)})"
+
+
+T_co = TypeVar("T_co", covariant=True)
+
+
+class Pops(Protocol[T_co]):
+    """Structural and generic: list[int] is a Pops[int] (list.pop returns the element type)."""
+
+    def pop(self) -> T_co: ...
 
 
 class FSub(float):
